@@ -49,7 +49,16 @@ def check(ctx):
                    "g": pc.two_sided(rng, {"y": F(1), "x": gen.rand_coef(rng, "dyadic")}, pt) + pc._terms(rng, ["x", "y"], rng.randint(0, 1), pt),
                    "i": ["x"], "o": ["y"]}
             mode = "feedback_divisor"
-        if rng.random() < 0.3 and top["a"]:
+        if rng.random() < 0.2:
+            # the dividend's assumptions are, term for term, a PROPER sub-list of the divisor's: the divisor assumes one thing more
+            # (over a top-level input and one of its own inputs), which the dividend's assumptions do not imply
+            pt = gen.rand_point(rng, ["i", "u", "m", "o"])
+            shared_a = pc.two_sided(rng, {"i": F(1)}, pt, 4)
+            extra = rng.choice([({"u": F(1), "i": F(-1)}, F(0)), ({"u": F(1)}, pt["u"] + F(rng.randint(0, 2))), ({"u": F(-1), "i": F(1, 2)}, F(1))])
+            top = {"a": list(shared_a), "g": [({"o": F(1), "i": F(-1)}, F(rng.randint(0, 2)))], "i": ["i"], "o": ["o"]}
+            divisor = {"a": list(shared_a) + [extra], "g": pc.two_sided(rng, {"m": F(1), "i": F(-1)}, pt, 0), "i": ["i", "u"], "o": ["m"]}
+            mode = "dividend_assumptions_sublist_of_divisor"
+        if rng.random() < 0.3 and top["a"] and mode != "dividend_assumptions_sublist_of_divisor":
             top = dict(top, a=top["a"][:-1])          # weaker top-level assumptions: may no longer imply the divisor's
         cand = list(dict.fromkeys(divisor["o"] + top["i"]))
         add = [v for v in cand if rng.random() < 0.25]
